@@ -84,3 +84,24 @@ def load_harnesses(prop: str):
 
     mod = importlib.import_module(f"xv.harness.{prop}")
     return mod, {h.name: h for h in mod.HARNESSES}
+
+
+def to_json(o):
+    """JSON-able encoding of counterexample arguments (bytes -> {"__bytes__": latin-1 text})."""
+    if isinstance(o, (bytes, bytearray)):
+        return {"__bytes__": bytes(o).decode("latin-1")}
+    if isinstance(o, (list, tuple)):
+        return [to_json(x) for x in o]
+    if isinstance(o, dict):
+        return {str(k): to_json(v) for k, v in o.items()}
+    return o
+
+
+def from_json(o):
+    if isinstance(o, dict):
+        if set(o.keys()) == {"__bytes__"}:
+            return o["__bytes__"].encode("latin-1")
+        return {k: from_json(v) for k, v in o.items()}
+    if isinstance(o, list):
+        return [from_json(x) for x in o]
+    return o
